@@ -35,8 +35,9 @@ def run(chk):
                 'checks StructureWF on the reader machine (abstract machine tree = oracle); each document is replayed on the real '
                 'parser and the abstract projection of the real tree (names, argument kinds/order/contents, nesting, item '
                 'ownership; adjacent text leaves merged, comments kept apart) must equal the oracle. A case is a document.')
-    for label, pools in scopes(chk):
-        recs, p = D.generate(chk, label, pools, INV)
+    sims = [('simulate', {'Budget': 12, 'MaxDepth': 5, 'MaxSib': 4}, 300 if chk.tier == 'quick' else 6000)]
+    for label, pools, *sim in [(a, b) for a, b in scopes(chk)] + sims:
+        recs, p = D.generate(chk, label, pools, INV, simulate=sim[0] if sim else None, depth=600 if sim else None)
         c01.replay_docs(chk, recs, p['UserSkipG'], check_doc, 'abstract tree must equal the generating syntax tree')
         for r in sorted(recs, key=lambda r: -len(r['i']))[:2]:
             chk.sample({'source': from_atoms(r['i']), 'oracle_abs': ''.join(r['abs'])})
